@@ -486,3 +486,31 @@ func (x *Exec) recordFam(fam *Family, write bool) {
 		x.famReads[fam.Name] = true
 	}
 }
+
+// keybytesAxioms: the byte layout of the keys of every family of a store (used by whole-store scans that parse
+// iter.Key() themselves).
+func (e *Engine) keybytesAxioms(store string) {
+	for _, f := range families {
+		if f.Store != store {
+			continue
+		}
+		parts := []string{smtStrLit([]byte{f.Prefix})}
+		for i, sg := range f.Segs {
+			sel := fmt.Sprintf("(K_%s_%d k)", f.Name, i)
+			switch sg {
+			case "str":
+				parts = append(parts, sel)
+			case "u64":
+				parts = append(parts, "(u64be "+sel+")")
+			case "fill32":
+				parts = append(parts, "(fill32 "+sel+")")
+			}
+		}
+		body := parts[0]
+		if len(parts) > 1 {
+			body = "(str.++ " + strings.Join(parts, " ") + ")"
+		}
+		e.addAxiom(fmt.Sprintf("(assert (forall ((k Key)) (! (=> ((_ is K_%s) k) (= (keybytes k) %s)) :pattern ((keybytes k)))))", f.Name, body))
+	}
+	e.note("store keys are the concatenation of the family byte and the key components (chain ids are assumed prefix-free, so components are read back unambiguously)")
+}
